@@ -48,11 +48,13 @@ func selfTest(ctx *core.Ctx) error {
 	wOK := readRun{Side: "write", Hit: true, Calls: []callOut{}, Outs: []wOut{{Cls: "err", Carries: true, Call: "Close"}}}
 	wSilent := readRun{Side: "write", Hit: true, Calls: []callOut{}, Outs: []wOut{{Cls: "ok", Call: "Close"}}}
 	wOther := readRun{Side: "write", Hit: true, Calls: []callOut{}, Outs: []wOut{{Cls: "err", Carries: false, Call: "Put"}}}
-	bad, err := judge(ctx, []readRun{noFault, faulted, differs, noCarry, blamed, wOK, wSilent, wOther, noFault})
+	wReadErr := readRun{Side: "write", RHit: true, Calls: []callOut{}, Outs: []wOut{{Cls: "err", Carries: true, Call: "Get"}}}
+	wReadDiff := readRun{Side: "write", RHit: true, Same: false, Calls: []callOut{}, Outs: []wOut{{Cls: "ok", Call: "Close"}}}
+	bad, err := judge(ctx, []readRun{noFault, faulted, differs, noCarry, blamed, wOK, wSilent, wOther, noFault, wReadErr, wReadDiff})
 	if err != nil {
 		return err
 	}
-	want := []int{2, 3, 4, 6, 7}
+	want := []int{2, 3, 4, 6, 7, 10}
 	if len(bad) != len(want) {
 		return core.Infra("self-test: corrupted runs not singled out: rejected %v, want %v", bad, want)
 	}
@@ -61,7 +63,7 @@ func selfTest(ctx *core.Ctx) error {
 			return core.Infra("self-test: corrupted runs not singled out: rejected %v, want %v", bad, want)
 		}
 	}
-	ctx.Logf("self-test (i): 5 corrupted runs rejected, 4 intact ones accepted")
+	ctx.Logf("self-test (i): 6 corrupted runs rejected, 5 intact ones accepted")
 
 	for _, nc := range []struct{ cfg, inv, what string }{
 		{"MC_IOFault_ascoded.cfg", "NoSwallowedOpen", "shouldExit swallowing I/O errors in Recover mode (F7a, F7b)"},
